@@ -230,7 +230,7 @@ def syntax_corpus():
     a(P("syn_records", E2 + ".type Pr = [a:number, b:number]\n.decl r(p:Pr)\n.decl o(x:number,y:number)\n.output o\nr([x,y]) :- e(x,y).\nr(nil) :- e(1,1).\no(y,x) :- r([x,y]).\n", "syntax", m=2))
     a(P("syn_symbols", ".decl e(x:symbol,y:symbol)\n.input e\n.decl p(x:symbol,y:symbol)\n.output p\np(x,y) :- e(x,y), x != y.\np(x,\"k\") :- e(x,\"a b\").\n", "syntax", m=2))
     a(P("syn_multi_head_fact", E2 + ".decl p(x:number)\n.decl q(x:number)\n.output p\n.output q\np(1).\nq(2).\np(x), q(x) :- e(x,x).\n", "syntax", m=2))
-    a(P("syn_unsigned_float", ".decl e(x:unsigned,y:float)\n.input e\n.decl p(x:unsigned,y:float)\n.output p\np(x+1,y) :- e(x,y), x < 10, y >= 1.5.\np(itou(ftoi(y)),y) :- e(x,y), y > 0.0, y < 100.0, x = 3.\n", "syntax", mode="L", n=1, tiers=("thorough",)))
+    a(P("syn_unsigned_float", ".decl e(x:unsigned,y:float)\n.input e\n.decl p(x:unsigned,y:float)\n.output p\np(x+1,y) :- e(x,y), x < 10, y >= 1.5.\np(to_unsigned(to_number(y)),y) :- e(x,y), y > 0.0, y < 100.0, x = 3.\n", "syntax", mode="L", n=1, tiers=("thorough",)))
     return C
 
 
